@@ -2,4 +2,5 @@
 let () =
   match Array.to_list Sys.argv with
   | _ :: "int" :: rest -> Intmain.run (List.mem "--spec" rest)
-  | _ -> prerr_endline "usage: zwmodel int [--spec]"; exit 2
+  | _ :: "cov" :: _ -> Covmain.run ()
+  | _ -> prerr_endline "usage: zwmodel int [--spec] | cov"; exit 2
